@@ -164,6 +164,7 @@ class _Normalizer:
                 self._field_class_cache = None      # helpers are inlined by now: factories have become constructor calls
                 self._each_function(m, self._inline_properties)
             self._each_function(m, self._fold_function)
+            self._each_function(m, self._inline_pure_everywhere)
             self._each_function(m, self._tabulated_functions)
             self._each_function(m, self._table_dispatch)
             self._each_function(m, self._prune_constant_tests)
@@ -2087,9 +2088,28 @@ class _Normalizer:
             _, mod, name = r
             vals = mod.assigns.get(name, [])
             if len(vals) == 1 and name not in _global_decls(mod.tree) and not (mod is self.m and name in self.globals_rebound):
+                v0 = vals[0]
+                # a module-level object of a class whose instances are never written (built directly or by a cached value
+                # factory) from constants: a name for that constructor call
+                if mod is self.m and isinstance(v0, ast.Call) and not v0.keywords and all(isinstance(a, ast.Constant) for a in v0.args) \
+                        and not self.repo.table_writers(mod.name, name):
+                    try:
+                        rr = self.repo.resolve_expr(v0.func, mod) if not isinstance(v0.func, ast.Name) else self.repo.resolve_name(v0.func.id, mod)
+                    except Exception:
+                        rr = None
+                    from .srcmodel import ClassRef as _CR, FuncRef as _FR
+                    okv = False
+                    if isinstance(rr, _CR):
+                        okv = self.repo.effectively_immutable(self.repo.cls(rr.module, rr.name))
+                    elif isinstance(rr, _FR):
+                        try:
+                            okv = self.repo.cached_value_factory(self.repo.func(rr.module, rr.qualname))
+                        except Exception:
+                            okv = False
+                    if okv:
+                        return copy.deepcopy(v0)
                 # an immutable collection of scalars built from a literal: ``frozenset(['a', 'b'])`` reads, for membership
                 # tests and iteration over it, as the tuple of its (sorted) members
-                v0 = vals[0]
                 if isinstance(v0, ast.Call) and isinstance(v0.func, ast.Name) and v0.func.id in ('frozenset', 'tuple') \
                         and len(v0.args) == 1 and not v0.keywords and isinstance(v0.args[0], (ast.List, ast.Tuple, ast.Set)) \
                         and v0.args[0].elts and all(isinstance(x, ast.Constant) and type(x.value) in (int, str, bytes)
@@ -2838,6 +2858,61 @@ class _Normalizer:
             return out
         fnode.body = walk_body(fnode.body)
 
+    # ------------------------------------------------------------------ 1e. single-expression helpers, wherever they are called
+    def _inline_pure_everywhere(self, fnode, cls, local):
+        """``[helper(i) for i in xs]`` / a call inside a lambda-free expression the statement-level inliner does not reach: a helper
+        whose body is one ``return <expression>`` and whose arguments at the call are plain names / constants is replaced by that
+        expression (parameters substituted) wherever the call stands"""
+        me = self
+
+        class T(ast.NodeTransformer):
+            def visit_FunctionDef(self_, n):
+                return n if n is not fnode else self_.generic_visit(n)
+            visit_AsyncFunctionDef = visit_FunctionDef
+
+            def visit_Lambda(self_, n):
+                return n
+
+            def visit_Call(self_, n):
+                n = self_.generic_visit(n)
+                h = me._helper_of(n, cls)
+                if h is None or h[0].node is fnode or not me._inlinable(h[0]) or not _is_pure(h[0]) or h[1] is not None:
+                    return n
+                fi = h[0]
+                if any(isinstance(a, ast.Starred) for a in n.args) or any(k.arg is None for k in n.keywords):
+                    return n
+                if not all(_is_simple_or_const(a) for a in n.args) or not all(_is_simple_or_const(k.value) for k in n.keywords):
+                    return n
+                params = [x.arg for x in fi.node.args.args]
+                if len(n.args) > len(params):
+                    return n
+                env = dict(zip(params, n.args))
+                for k in n.keywords:
+                    if k.arg not in params or k.arg in env:
+                        return n
+                    env[k.arg] = k.value
+                defaults = fi.node.args.defaults
+                for p_, d_ in zip(params[len(params) - len(defaults):], defaults):
+                    env.setdefault(p_, d_)
+                if any(p_ not in env for p_ in params):
+                    return n
+                ret = _body(fi.node)[0].value
+                if ret is None or any(isinstance(y, (ast.Lambda, ast.ListComp, ast.GeneratorExp, ast.DictComp, ast.SetComp, ast.Yield,
+                                                    ast.NamedExpr, ast.Await)) for y in ast.walk(ret)):
+                    return n
+                if fi.module is not me.m and not me._portable(fi):
+                    return n
+
+                class S(ast.NodeTransformer):
+                    def visit_Name(self__, y):
+                        if isinstance(y.ctx, ast.Load) and y.id in env:
+                            return copy.deepcopy(env[y.id])
+                        return y
+                me.stats['inlined_calls'] += 1
+                return ast.copy_location(S().visit(copy.deepcopy(ret)), n)
+        T().visit(fnode)
+        ast.fix_missing_locations(fnode)
+
     # ------------------------------------------------------------------ 1d. caches whose key determines the value
     def _memo_elision(self, fnode, cls, local):
         """A function that keeps results under a *complete* key (memo.missing_inputs is empty) and does not write through what it
@@ -3154,7 +3229,7 @@ class _Normalizer:
         if a.vararg or a.kwarg or a.kwonlyargs or a.posonlyargs:
             return False
         for d in node.decorator_list:
-            if ast.unparse(d) not in ('staticmethod', 'classmethod'):
+            if ast.unparse(d) not in ('staticmethod', 'classmethod') and not self.repo.cached_value_factory(fi):
                 return False
         body = _body(node)
         if not body:
